@@ -331,6 +331,10 @@ func (MonC14) State(x *Exec) *Violation {
 		}
 		for pass := 2; pass <= 3; pass++ {
 			var again []Pair
+			if pass == 3 {
+				// other read-only calls (and other sequences) in between: the tree is still unchanged
+				WarmQueries(u, x.D)
+			}
 			p := safely(func() { again = Collect(seq) })
 			x.Stats.Evaluations++
 			if p != "" {
